@@ -1121,8 +1121,9 @@ def tree_path_to_fs_path(
       tree_encoding: Encoding used for tree paths (default: utf-8)
     Returns: Filesystem path as bytes (with os.sep, filesystem encoding)
     """
-    # Decode from tree encoding
-    path_str = tree_path.decode(tree_encoding)
+    # Decode from tree encoding; bytes that are not valid in it are carried
+    # through unchanged (git paths are arbitrary bytes)
+    path_str = tree_path.decode(tree_encoding, "surrogateescape")
 
     # Replace / with OS separator if needed
     if os.sep != "/":
@@ -2081,7 +2082,7 @@ def add(
                 # Also add unstaged (modified) files within this directory
                 for unstaged_path in all_unstaged_paths:
                     if isinstance(unstaged_path, bytes):
-                        unstaged_path_str = unstaged_path.decode("utf-8")
+                        unstaged_path_str = os.fsdecode(unstaged_path)
                     else:
                         unstaged_path_str = unstaged_path
 
